@@ -455,6 +455,11 @@ func structuralCorruptions(img []byte, ps int, res *dec.Result, t *sim.Tape) []c
 		// invalid type
 		if len(out) < 200 {
 			out = append(out, corruption{"bad-type", fmt.Sprintf("page %d flags set to 0x40", id), func(b []byte) { le.PutUint16(b[po+8:], 0x40) }})
+			// an invalid type that still contains the bit of the type the page is used as
+			extra := []uint16{0x10, 0x04, 0x8000, 0x01, 0x02}[t.Intn(5)]
+			if extra&flags == 0 {
+				out = append(out, corruption{"bad-type", fmt.Sprintf("page %d flags %#x with extra bit %#x", id, flags, extra), func(b []byte) { le.PutUint16(b[po+8:], flags|extra) }})
+			}
 		}
 		if flags == dec.FlagBranch && cnt >= 2 {
 			// referenced twice: two branch elements point at one child
